@@ -84,7 +84,7 @@ func gen(t *rapid.T) Case {
 	return c
 }
 
-const bound = 30 * time.Second
+const bound = 10 * time.Second
 
 type issued struct {
 	spec    CallSpec
